@@ -216,7 +216,7 @@ outsideFor:
 					w.workQueue.AdjustPriorities()
 					wtemp := heap.Pop(w.workQueue).(*workItem)
 					workerCh <- wtemp
-					w.workQueue.Push(work)
+					heap.Push(w.workQueue, work)
 				}
 				fmt.Printf("Queue Length %v\n", w.workQueue.Len())
 			}
